@@ -1,10 +1,12 @@
-import CoapVerif.Driver.Codec
+import CoapVerif.Driver.All
+/- One line in, one line out: `<op> <args…>` is dispatched to the model step registered for `op`
+   (see tools/gen_registry.py). -/
 open Coap Coap.Driver
 
 def step (line : String) : String :=
   match words line with
-  | "parse" :: args => parseStep args
-  | _ => "bad-op"
+  | op :: args => dispatch op args
+  | [] => "bad-op"
 
 partial def loop (h : IO.FS.Stream) (out : IO.FS.Stream) : IO Unit := do
   let line ← h.getLine
